@@ -15,6 +15,7 @@ PROP = {
         "only code that reads the injected clock is covered; nothing on this path calls time.Now() directly (checked: the harness fails if the path registers clock timers)",
         "group header values have no leading/trailing blanks and each value is listed at most once in an allocation table",
         "share = ceil(allowed*pct/100); where exact rational and float64 evaluation differ both are accepted",
+        "after a re-allocation (policies applied again with other percentages) the window in progress at that instant is not asserted for the counters of that remedy, every later window is, with the new shares",
         "after a window-size change, windows of the new grid are asserted only from the first new-grid boundary at or after the end of the old-grid window of that counter's last request (the statement does not say which length governs the window in progress); isolation is asserted everywhere",
         "for a group without allocation: default allow => must pass, block => must be rejected with the configured status, undefined/absent => either",
         "rejection status is compared only when response_status_code is configured (otherwise any 1xx-5xx early response is accepted)",
